@@ -788,7 +788,18 @@ def run_check(tier, seed):
     # reals and friends: quantifier-free, exact counter-model search
     try:
         context.set_context('real', vars={'x': 'real', 'y': 'real', 'z': 'real', 'm': 'nat', 'n': 'nat', 'f': 'nat => nat', 'g': 'nat => nat'})
-        for text, expected in REAL_TEMPLATES + FUN_TEMPLATES + [("m - n + n >= m", True), ("m - n + n = m", False), ("max m n - min m n = abs (m - n)", False)]:
+        # of_nat of something that is not a free variable (an applied function, a compound term, a bound variable) on both sides of a
+        # real division: the quotient is a real one (1 / 2, not 0)
+        OFNAT = [("?a::nat. ?b::nat. ~(b = 0) & of_nat a / of_nat b * of_nat b < (of_nat a::real)", False),
+                 ("!a::nat. !b::nat. ~(b = 0) --> of_nat a / of_nat b * of_nat b = (of_nat a::real)", True)]
+        for a_, b_ in ((1, 2), (7, 2), (3, 4), (5, 3), (2, 5)):
+            OFNAT += [("f 0 = %d --> f 1 = %d --> of_nat (f 0) / of_nat (f 1) = (%d::real)" % (a_, b_, a_ // b_), False),
+                      ("f 0 = %d --> f 1 = %d --> of_nat (f 0) / of_nat (f 1) * %d = (%d::real)" % (a_, b_, b_, a_), True),
+                      ("m = %d --> n = %d --> of_nat (m + 0) / of_nat (n + 0) = (%d::real)" % (a_, b_, a_ // b_), False),
+                      ("m = %d --> n = %d --> of_nat (m * 1) / of_nat (n + 0) * %d = (%d::real)" % (a_, b_, b_, a_), True),
+                      ("m = %d --> n = %d --> of_nat (m + 0) / of_nat (n + 0) * %d < (%d::real)" % (a_, b_, b_, a_), False),
+                      ("f 0 = %d --> of_nat (f 0) / %d = (%d::real)" % (a_, b_, a_ // b_), False)]
+        for text, expected in REAL_TEMPLATES + FUN_TEMPLATES + OFNAT + [("m - n + n >= m", True), ("m - n + n = m", False), ("max m n - min m n = abs (m - n)", False)]:
             try:
                 goal = parser.parse_term(text)
                 solved = z3wrapper.solve(goal)
